@@ -363,9 +363,13 @@ C07d(g, o, g2) ==
         /\ \E r \in o.db.nps : r.app = cn.app /\ r.name = o.e.m.nameplate /\ r.side = cn.side /\ ~r.claimed)
        => ErrIs(o, "reclaimed")
 \* (e) listed while it lives (when listing is allowed), gone after the last release
+\*     (after a kill inside a release the nameplate may be left with no claim; the release that
+\*      finishes the job is the one re-sent by a side the nameplate has a record of -- a release by
+\*      somebody it never heard of changes nothing, and the leftover waits for the sweep)
 C07e(g, o, g2) ==
   LET cn == g.gc[o.e.c] IN
-  (Carried(g, o) /\ CmdIs(o, "release") /\ ~g.crashed
+  (Carried(g, o) /\ CmdIs(o, "release")
+     /\ (~g.crashed \/ \E r \in o.db.nps : r.app = cn.app /\ r.name = RelName(g, o) /\ r.side = cn.side)
      /\ ~(\E r \in o.db2.nps : r.app = cn.app /\ r.name = RelName(g, o) /\ r.claimed))
     => RelName(g, o) \notin AppNames(o.db2, cn.app)
 
